@@ -30,6 +30,11 @@ type RunOpts struct {
 	Disk             *simdisk.Disk
 	// Known findings excluded by construction (see known_findings.jsonl).
 	Exclude map[string]bool
+	// Faults: an I/O fault plan is armed on the disk; Commit may fail for I/O
+	// reasons and the C08 oracles are applied.
+	Faults bool
+	// AfterCommit, if set, is called after every successful commit (writer drained).
+	AfterCommit func(r *Runner, rec *CommitRec)
 	// SkipItem, if set, is consulted before every item.
 	SkipItem func(i int, it *Item) bool
 }
@@ -85,8 +90,20 @@ type Runner struct {
 	curItem   int
 	openOpts  txfile.Options
 	curMax    uint // current max pages (may change through resize)
-	openTx    *txfile.Tx
-	lastProbe int
+	// fault mode bookkeeping (C08)
+	LastTxID uint64 // header txid of the last successful commit
+	// PostPub: an injected size/truncate/mmap failure hit a Commit. Those calls only occur after the
+	// new header has been synced (post-publication phase): pattern of known finding F17.
+	PostPub bool
+	// StickyPattern: an injected failure hit a write of a transaction that ended without Commit
+	// (pattern of known finding F11: the writer keeps the error for the next transaction).
+	StickyPattern bool
+	Maybe         []*MState // states of failed commits whose only failure was a sync (may be durable)
+	txFaultOver   bool      // fault plan was exhausted when the running tx began
+	txInjected0   int
+	txSyncs0      int
+	openTx        *txfile.Tx
+	lastProbe     int
 }
 
 // StatsObserver records the most recent stats reported by the file.
@@ -188,6 +205,7 @@ func NewRunner(p *Program, o RunOpts) (*Runner, *Violation) {
 	r.F = f
 	r.CreatedIdx = r.Disk.LogLen()
 	r.InitTxID = f.VerifState().TxID
+	r.LastTxID = r.InitTxID
 	return r, nil
 }
 
@@ -217,6 +235,9 @@ func trimStack(s []byte) string {
 	}
 	return strings.Join(keep, " < ")
 }
+
+// TrimStack reduces a stack trace to the source locations inside the code under test.
+func TrimStack(s []byte) string { return trimStack(s) }
 
 // PanicSite extracts the first txfile source location from a stack.
 func panicSite(stack []byte) string {
@@ -575,6 +596,11 @@ func (r *Runner) runTx(idx int, tx *Tx) *Violation {
 		MetaAreaGrowPercentage: tx.GrowPct,
 		EnableOverflowArea:     tx.Overflow,
 	}
+	if r.O.Faults {
+		r.txFaultOver = r.Disk.FaultOver()
+		r.txInjected0 = r.Disk.Injected()
+		r.txSyncs0 = r.Disk.Counts()[simdisk.CallSync]
+	}
 	ftx, err := r.F.BeginWith(opts)
 	if err != nil {
 		return violationf("begin", idx, "Begin failed: %v", err)
@@ -622,8 +648,16 @@ func (r *Runner) runTx(idx int, tx *Tx) *Violation {
 	return nil
 }
 
+// committedView returns the model state this transaction would commit.
+func (t *txRun) committedView() *MState { return t.T.Clone() }
+
 func (t *txRun) aborted(how string) {
 	r := t.r
+	if r.O.Faults && how != "commit-failed" && r.Disk.Injected() > r.txInjected0 {
+		if f := r.Disk.ArmedFault(); f != nil && f.Kind == simdisk.CallWrite {
+			r.StickyPattern = true
+		}
+	}
 	if t.flushedAny {
 		r.count("abort-after-flush")
 	}
@@ -658,6 +692,49 @@ func (t *txRun) commit() *Violation {
 	r.openTx = nil
 
 	rec := CommitRec{Item: t.idx, BeginIdx: beginIdx, EndIdx: endIdx, OK: err == nil}
+	if r.O.Faults {
+		injected := r.Disk.Injected() - r.txInjected0
+		if err == nil && injected > 0 {
+			return violationf("fault-swallowed", t.idx, "%d injected I/O failure(s) hit this transaction, but Commit returned nil", injected)
+		}
+		if err != nil {
+			roomy := !r.bounded()
+			if !roomy {
+				avail := int(t.snap0.DataAvail)
+				if uint(t.snap0.DataEnd) < t.snap0.MaxPages {
+					avail += int(t.snap0.MaxPages) - int(t.snap0.DataEnd)
+				}
+				roomy = avail >= 200
+			}
+			if injected == 0 && r.txFaultOver && roomy {
+				cl := "post-fault-commit-failed"
+				if r.StickyPattern {
+					cl = "sticky-writer-error-after-abort"
+					r.StickyPattern = false
+				}
+				return violationf(cl, t.idx,
+					"the I/O failures had stopped before this transaction began and none hit it, but Commit failed: %v", err)
+			}
+			if injected > 0 {
+				if f := r.Disk.ArmedFault(); f != nil && (f.Kind == simdisk.CallSize || f.Kind == simdisk.CallTruncate || f.Kind == simdisk.CallMMap) {
+					r.PostPub = true
+				}
+				r.count("commit-failed-by-fault")
+				if f := r.Disk.ArmedFault(); f != nil && f.Kind == simdisk.CallSync {
+					// only syncs failed: the commit may have become durable (final sync lost)
+					r.Maybe = append(r.Maybe, t.committedView())
+					r.count("commit-failed-sync-only")
+				}
+			}
+			t.aborted("commit-failed")
+			r.record(Obs{Op: -1, Kind: "commit", OK: false, Err: ErrKindName(err)})
+			r.drain()
+			return nil
+		}
+		r.Maybe = nil
+		r.StickyPattern = false
+		r.LastTxID = r.F.VerifState().TxID
+	}
 	if err != nil {
 		// On a bounded file a commit may fail for lack of space (data, overwrite
 		// or metadata pages). The error does not always carry the OutOfMemory kind
@@ -709,6 +786,9 @@ func (t *txRun) commit() *Violation {
 	}
 	r.record(Obs{Op: -1, Kind: "commit", OK: true})
 	r.drain()
+	if r.O.AfterCommit != nil {
+		r.O.AfterCommit(r, &rec)
+	}
 	return nil
 }
 
